@@ -940,6 +940,34 @@ def call_accesses(fn, callee):
     return None
 
 
+def pageend_tu(decls):
+    """c2m-only TU: every aggregate sits in the last sizeof bytes before an inaccessible page and is returned by value
+    from there (callee side: loads) and assigned there from a call (caller side: stores).  Lines 'E <i> start',
+    'E <i> ok|BAD'; an access beyond the object ends the process between the two."""
+    out = ['#include <stdio.h>', '#include <string.h>',
+           'extern void *mmap (void *, unsigned long, int, int, int, long);',
+           'extern int mprotect (void *, unsigned long, int);']
+    body = []
+    for i, t in decls:
+        e = Emit(i, t)
+        out += e.defs
+        tn = e.top
+        out += ['%s pe_get%d (%s *p) { return *p; }' % (tn, i, tn),
+                '%s pe_src%d; void pe_put%d (%s *q) { *q = pe_get%d (&pe_src%d); }' % (tn, i, i, tn, i, i)]
+        body += ['  { %s *p = (%s *) (pg + 4096 - sizeof (%s)), v; unsigned char *b = (unsigned char *) p, *w = (unsigned char *) &v; int ok = 1;'
+                 % (tn, tn, tn),
+                 '    printf ("E %d start\\n"); fflush (stdout);' % i,
+                 '    for (unsigned long k = 0; k < sizeof (%s); k++) b[k] = (unsigned char) (1 + (k * 11 + %d) %% 250);' % (tn, i),
+                 '    v = pe_get%d (p); ok = ok && memcmp (&v, p, sizeof v) == 0;' % i,
+                 '    for (unsigned long k = 0; k < sizeof (%s); k++) ((unsigned char *) &pe_src%d)[k] = (unsigned char) (3 + (k * 7 + %d) %% 250);' % (tn, i, i),
+                 '    pe_put%d (p); ok = ok && memcmp (p, &pe_src%d, sizeof v) == 0;' % (i, i),
+                 '    printf ("E %d %%s\\n", ok ? "ok" : "BAD"); fflush (stdout); }' % i]
+    out += ['int main (void) {', '  unsigned char *pg = mmap (0, 8192, 3, 0x22, -1, 0);', '  mprotect (pg + 4096, 4096, 0);']
+    out += body
+    out += ['  return 0;', '}']
+    return '\n'.join(out) + '\n'
+
+
 def parse_sigs(mir_text):
     """{'ret<i>': 'IS'|'M'|'X'|..., 'arg<i>_<j>': ...} from c2m -S output"""
     import re
